@@ -702,11 +702,19 @@ func (ip *Interp) step(act *activation, st *State, instr ssa.Instruction) bool {
 		}
 		ev := ip.event(Event{Kind: "map-lookup", Args: []Val{x, ip.get(act, st, t.Index)}, Instr: t})
 		var res Val
+		ip.fresh++
+		lk := fmt.Sprintf("lookup#%d", ip.fresh)
+		named := func(v Val) Val {
+			if tp, ok := v.(*Top); ok {
+				tp.Key = lk
+			}
+			return v
+		}
 		if t.CommaOk {
 			tt := t.Type().(*types.Tuple)
-			res = &Tuple{E: []Val{ip.topOf(tt.At(0).Type(), "lookup"), &Bool{K: TriTop}}}
+			res = &Tuple{E: []Val{named(ip.topOf(tt.At(0).Type(), "lookup")), &Bool{K: TriTop, Key: lk + ".ok"}}}
 		} else {
-			res = ip.topOf(t.Type(), "lookup")
+			res = named(ip.topOf(t.Type(), "lookup"))
 		}
 		ev.Result = res
 		act.env[t] = res
